@@ -46,9 +46,18 @@ var baseAssume = []string{
 	"behaviour outside the stated alphabets and bounds is not covered",
 }
 
+// home is the verification tree this binary belongs to: $VERIF_HOME, else the
+// parent of the directory holding the executable (so that a snapshot of /verif
+// is self-contained), else /verif.
 func home() string {
 	if h := os.Getenv("VERIF_HOME"); h != "" {
 		return h
+	}
+	if exe, err := os.Executable(); err == nil {
+		d := filepath.Dir(filepath.Dir(exe))
+		if _, err := os.Stat(filepath.Join(d, "harness")); err == nil {
+			return d
+		}
 	}
 	return "/verif"
 }
